@@ -15,7 +15,7 @@ From Coq Require Import ZArith List Bool.
 From Low Require Import Lib.BitSeq Lib.Bytes Model.Pbcmpl Model.LegacyPbcmpl Spec.PbcmplSpec
   Proofs.PbcmplIO Proofs.PbcmplHeader Proofs.PbcmplProofs Proofs.PbcmplMarshal
   Proofs.PbcmplFrames Proofs.PbcmplStream Proofs.PbcmplHistory Proofs.PbcmplLegacy.
-From Low Require Import Lib.Val Run.PbcmplOps Model.PbcmplWalk Spec.PbcmplWalkSpec Proofs.PbcmplWalk Run.PbcmplWalkOps Proofs.PbcmplOpsC07.
+From Low Require Import Lib.Val Run.PbcmplOps Model.PbcmplEncErr Model.PbcmplWalk Spec.PbcmplWalkSpec Proofs.PbcmplWalk Run.PbcmplWalkOps Proofs.PbcmplOpsC07.
 Import ListNotations.
 Open Scope Z_scope.
 
@@ -265,6 +265,15 @@ Example C07_walk_nonvacuous :
     = ([(32, None, [49; 46; 50; 46; 51], 32, 3, [7; 8; 9], false);
         (32, Some EInjected, [49; 46; 50; 46; 51], 32, 3, [7; 8], false)], []).
 Proof. vm_compute. repeat split; reflexivity. Qed.
+
+(** widening — the error return of Marshal when proto.Marshal(msg) itself fails
+    (Model/PbcmplEncErr.v): count 0, that error, the writer untouched, for every writer
+    and every version (no panic even for a version longer than 16 bytes) *)
+Theorem C07_marshal_encode_error : forall (Msg W : Type) (enc : Msg -> option (list Z))
+    (write : W -> list Z -> Z * option perr * W) (w : W) (m : Msg) ver,
+  enc m = None -> Marshal_opt enc write w m ver = Some (0, encode_errclass, w).
+Proof. exact @Marshal_encode_error. Qed.
+Print Assumptions C07_marshal_encode_error.
 
 (** the defect repaired by /repo commit 815cf27: against the pre-fix Unmarshal
     (Model/LegacyPbcmpl.v: make([]byte, int64(BodySize)) then io.ReadFull) the "never
